@@ -673,6 +673,150 @@ theorem step_choose (atom : String) (b : Bool) (hen : enabled sh j rg (.choose a
         · obtain rfl := Option.some.inj hph
           exact ⟨E, rfl, hL, hLT, hG, hfr⟩
 
+
 end
+
+-- ------------------------------------------------------------------------------------------------ the other items
+
+/-- items `Events` and the automaton do not look at -/
+def silent : Item → Bool
+  | .act (.yield _) _ _ => false
+  | .fin _ _ => false
+  | .act (.readIk _) .ok _ => false
+  | .act .allocTxid _ _ => false
+  | .act .stampTxid _ _ => false
+  | .act .peekTxid _ _ => false
+  | .act .chainLog _ _ => false
+  | .act (.append _ _) _ _ => false
+  | .act (.wait _) _ _ => false
+  | .act (.publish _ _) _ _ => false
+  | .act (.answer _) _ _ => false
+  | .choose _ _ => false
+  | _ => true
+
+theorem estep'_silent (ep : String) (ph : EPh) (x : Item) (h : silent x = true) : estep' ep ph x = some ph := by
+  unfold estep'
+  split <;> simp_all [silent]
+
+theorem effSh_silent (sh : Shared) (j : Job) (rg : Regs) (x : Item) (h : silent x = true) :
+    (effSh sh j rg x).store = sh.store ∧ (effSh sh j rg x).queue = sh.queue ∧ (effSh sh j rg x).lastTx = sh.lastTx := by
+  unfold effSh
+  split <;> simp_all [silent]
+
+theorem effRg_silent (sh : Shared) (j : Job) (rg : Regs) (x : Item) (h : silent x = true) :
+    (effRg sh j rg x).txid = rg.txid ∧ (effRg sh j rg x).chained = rg.chained ∧ (effRg sh j rg x).found = rg.found ∧
+    (effRg sh j rg x).answer = rg.answer := by
+  unfold effRg
+  split <;> simp_all [silent]
+
+/-- events `Events` lets pass unchanged -/
+def ign : Ev → Bool
+  | .arrive .. => false
+  | .committed .. => false
+  | .gate .. => false
+  | .crash => false
+  | .publish .. => false
+  | .finish .. => false
+  | .ikRead _ _ (some _) => false
+  | _ => true
+
+theorem step_ign (dry isTxKind : Nat → Bool) (E : Events.S) (ev : Ev) (h : ign ev = true) :
+    Events.step dry isTxKind E ev = .ok E := by
+  cases ev with
+  | ikRead a k f => cases f <;> simp_all [ign, Events.step]
+  | _ => simp_all [ign, Events.step]
+
+theorem runOn_ign (dry isTxKind : Nat → Bool) (E : Events.S) (evs : List Ev) (h : ∀ ev ∈ evs, ign ev = true) :
+    runOn (Events.step dry isTxKind) E evs = .ok E := by
+  induction evs with
+  | nil => rfl
+  | cons e es ih =>
+    simp only [runOn, step_ign dry isTxKind E e (h e (List.mem_cons_self ..))]
+    exact ih (fun ev hev => h ev (List.mem_cons_of_mem _ hev))
+
+theorem evs_silent (sh : Shared) (j : Job) (rg : Regs) (x : Item) (h : silent x = true) :
+    ∀ ev ∈ evsOf sh j rg x, ign ev = true := by
+  unfold evsOf
+  split <;> (try split) <;> simp_all [silent, ign]
+  intro ev x y z _ h
+  subst h
+  rfl
+
+theorem linv_congr (sh sh' : Shared) (E : Events.S) (j : Job) (rg rg' : Regs) (ph : EPh)
+    (e1 : sh'.store = sh.store) (e2 : sh'.queue = sh.queue) (r1 : rg'.txid = rg.txid) (r2 : rg'.chained = rg.chained)
+    (r3 : rg'.found = rg.found) (r4 : rg'.answer = rg.answer) (h : LInv sh E j rg ph) : LInv sh' E j rg' ph :=
+  { live := h.live, dry := h.dry, tx := by rw [r1]; exact h.tx, ch0 := by rw [r2]; exact h.ch0, ch1 := by rw [r2]; exact h.ch1,
+    mine := by rw [r2]; exact h.mine, appq := by rw [r2, e1, e2]; exact h.appq, durApp := h.durApp,
+    dur := by rw [r2, e1]; exact h.dur, fnd := by rw [r3]; exact h.fnd, fndS := by rw [r3, e1]; exact h.fndS,
+    kOk := by rw [r3]; exact h.kOk, idOk := by rw [r3]; exact h.idOk, pkS := by rw [r1]; exact h.pkS,
+    pkR := by rw [r1]; exact h.pkR, pub := by rw [r2, r3]; exact h.pub, ansI := by rw [r3, r4]; exact h.ansI,
+    ansP := by rw [r1, r4]; exact h.ansP }
+
+theorem step_silent (dry isTxKind : Nat → Bool) (sh : Shared) (E : Events.S) (j : Job) (rg : Regs) (ph ph' : EPh)
+    (hL : LInv sh E j rg ph) (hLT : LT sh E ph.al) (hG : Glob sh E) (x : Item) (hs : silent x = true)
+    (hph : estep' j.ep ph x = some ph') : StepOK dry isTxKind sh E j rg x ph' := by
+  rw [estep'_silent _ _ _ hs] at hph
+  obtain rfl := Option.some.inj hph
+  obtain ⟨e1, e2, e3⟩ := effSh_silent sh j rg x hs
+  obtain ⟨r1, r2, r3, r4⟩ := effRg_silent sh j rg x hs
+  refine ⟨E, runOn_ign dry isTxKind E _ (evs_silent sh j rg x hs), linv_congr sh _ E j rg _ ph e1 e2 r1 r2 r3 r4 hL, ?_,
+    ⟨hG.dur.trans e1.symm, by rw [e2]; exact hG.pend, hG.lt, by rw [e1]; exact hG.txS, by rw [e2]; exact hG.txQ⟩, ?_⟩
+  · unfold LT at hLT ⊢
+    rw [e3]
+    exact hLT
+  · intro b _
+    exact ⟨by rw [e1]; exact fun _ h => h, by rw [e2]; exact fun _ h => .inl h, fun _ h => h, rfl, rfl, rfl⟩
+
+/-- **one item of one request**: `Events` accepts what it emits, the request's part of the invariant moves with its
+phase, the others' records are untouched -/
+theorem item_step (dry isTxKind : Nat → Bool) (sh : Shared) (E : Events.S) (j : Job) (rg : Regs) (ph ph' : EPh)
+    (hj : JobOK dry isTxKind j) (hL : LInv sh E j rg ph) (hLT : LT sh E ph.al) (hG : Glob sh E)
+    (hids : Chain.idsOk 0 sh.store) (x : Item) (hen : enabled sh j rg x = true) (hph : estep j.ep ph x = some ph') :
+    StepOK dry isTxKind sh E j rg x ph' := by
+  have hph' : estep' j.ep ph x = some ph' := by simpa [estep, hL.live] using hph
+  cases x with
+  | act a o v =>
+    cases a with
+    | yield pt => exact step_yield dry isTxKind sh E j rg ph ph' hj hL hLT hG pt o v hph'
+    | readIk key =>
+      cases o with
+      | ok => exact step_readIk dry isTxKind sh E j rg ph ph' hj hL hLT hG key v hen hph'
+      | _ => exact step_silent dry isTxKind sh E j rg ph ph' hL hLT hG _ rfl hph'
+    | allocTxid => exact step_alloc dry isTxKind sh E j rg ph ph' hj hL hLT hG o v hph'
+    | stampTxid => exact step_stamp dry isTxKind sh E j rg ph ph' hj hL hLT hG o v hph'
+    | peekTxid => exact step_peek dry isTxKind sh E j rg ph ph' hj hL hLT hG o v hph'
+    | chainLog => exact step_chain dry isTxKind sh E j rg ph ph' hj hL hLT hG o v hph'
+    | append og cs => exact step_append dry isTxKind sh E j rg ph ph' hj hL hLT hG og cs o v hph'
+    | wait c => exact step_wait dry isTxKind sh E j rg ph ph' hj hL hLT hG c o v hen hph'
+    | publish k args => exact step_publish dry isTxKind sh E j rg ph ph' hj hL hLT hG hids k args o v hph'
+    | answer pv => exact step_answer dry isTxKind sh E j rg ph ph' hj hL hLT hG pv o v hph'
+    | _ => exact step_silent dry isTxKind sh E j rg ph ph' hL hLT hG _ rfl hph'
+  | choose atom b => exact step_choose dry isTxKind sh E j rg ph ph' hj hL hLT hG atom b hen hph'
+  | fin ok cls => exact step_fin dry isTxKind sh E j rg ph ph' hj hL hLT hG hids ok cls hph'
+  | panic w => exact step_silent dry isTxKind sh E j rg ph ph' hL hLT hG _ rfl hph'
+
+/-- a request that did not move keeps its part of the invariant -/
+theorem other_linv (sh sh' : Shared) (E E' : Events.S) (j : Job) (rg : Regs) (ph : EPh) (h : LInv sh E j rg ph)
+    (hF : Frame sh sh' E E' j.a) (hpk : ph.pk ≠ .inSeg) : LInv sh' E' j rg ph :=
+  { h with
+    mine := by rw [hF.mine]; exact h.mine
+    appq := fun ha => (by
+      obtain ⟨l, h1, h2⟩ := h.appq ha
+      refine ⟨l, h1, ?_⟩
+      rcases h2 with h2 | h2
+      · exact hF.queue _ h2
+      · exact .inr (hF.store _ h2))
+    dur := fun hd => (by
+      obtain ⟨l, h1, h2⟩ := h.dur hd
+      exact ⟨l, h1, hF.store _ h2⟩)
+    fnd := by rw [hF.found]; exact h.fnd
+    fndS := fun hf => (by
+      obtain ⟨l, h1, h2⟩ := h.fndS hf
+      exact ⟨l, h1, hF.store _ h2⟩)
+    pkS := fun hh => absurd hh hpk
+    pkR := fun hh hd => (by rw [hF.peek]; exact h.pkR hh hd)
+    pub := fun hp => (by
+      obtain ⟨e, he, r⟩ := h.pub hp
+      exact ⟨e, hF.pub e he, r⟩) }
 
 end Engine.Skel.EventsRef
